@@ -831,9 +831,22 @@ func runC08R10(c *Ctx, rule string) {
 				x, y := p.Resolve(p.Op(b.X, a.DV)), p.Resolve(p.Op(b.Y, a.DV))
 				if s, isC := ConstString(x.V); isC && s == "" {
 					x, y = y, x
-				} else if s, isC := ConstString(y.V); !isC || s != "" {
+				} else if s, isC := ConstString(y.V); isC && s == "" {
+					// x == ""
+				} else if n, isN := ConstInt(y.V); isN && n == 0 {
+					// len(x) == 0
+					call, isCall := x.V.(*ssa.Call)
+					if !isCall {
+						continue
+					}
+					if bi, isB := call.Call.Value.(*ssa.Builtin); !isB || bi.Name() != "len" {
+						continue
+					}
+					x = p.Resolve(p.Op(call.Call.Args[0], x))
+				} else {
 					continue
 				}
+				_ = y
 				u, ok := x.V.(*ssa.UnOp)
 				if !ok || u.Op != token.MUL {
 					continue
